@@ -636,6 +636,15 @@ def run(ctx):
             ctx.ob('K:IL(program) = IL(expanded by the specification) = IL(cpp -P) for %d generated programs' % stats['programs'],
                    not any(v['key'].startswith(('il-differs', 'program-rejected')) for v in ctx.violations))
 
+    # -E prints every preprocessing token of the result, also the single "other" characters of 6.4p1
+    if snap:
+        etext = '#define K(x) x #x\nint a; @ $ ` K(@) \\ K(?)\n'
+        rc, out, err = vlib.run_limited([os.path.join(snap, 'cproc-qbe'), '-E'], input=etext.encode(), timeout=20)
+        want = ['int', 'a', ';', '@', '$', '`', '@', '"@"', '\\', '?', '"?"']
+        if rc != 0 or ''.join(out.decode('latin-1').split()) != ''.join(want):
+            ctx.violation('-E does not print the token sequence (rc=%d, stdout %r, stderr %r), expected %r' % (rc, out[:120], err[:120], ' '.join(want)),
+                          etext, 'c', key='E-other-characters')
+
     cov = dict(evaluations=stats['evaluations'] + stats['programs'] + stats['regression'] + stats['known-replays'],
                distinct_nontrivial=len(nontrivial),
                rule='a case counts when cproc\'s output token sequence differs from the raw scanner tokens with directive lines removed '
